@@ -3,6 +3,7 @@ package checks
 import (
 	"errors"
 	"fmt"
+	"strings"
 
 	"github.com/jrhy/mast"
 	"pgregory.net/rapid"
@@ -222,6 +223,12 @@ func runC10(c C10Case, o *run.Obs) error {
 			}
 			desc := func() string {
 				return fmt.Sprintf("[%s] walk %d (%s, tree %s, height %d) %s then steps %q", c.Cfg, wi, c.Residency, w.DescribeModel(t.Model), height, what, wk.Steps[:si+1])
+			}
+			if err != nil && size == 0 && !strings.Contains(err.Error(), "panicked") {
+				// the statement promises that no call panics on an empty tree; whether a move on it may return an error
+				// is not stated, so that is recorded, not judged
+				o.Label("empty-tree:move-returned-an-error(not-judged)")
+				err = nil
 			}
 			if err != nil {
 				return fmt.Errorf("%s: step failed: %w", desc(), err)
